@@ -81,6 +81,10 @@ def is_panic_call(ce):
         return "std"
     if p.startswith(PANIC_PREFIX) or rp.startswith(PANIC_PREFIX):
         return "panic"
+    if p in ("core::convert::From::from", "core::convert::Into::into"):
+        sf = short(ce.get("full", ""))
+        if re.search(r"<&(mut )?\[u8\] as Into<&(mut )?GenericArray<|<&(mut )?GenericArray<u8, U\d+> as From<&(mut )?\[u8\]>>", sf):
+            return "std"      # generic-array: panics when the slice length differs from N
     for k in (p, rp):
         if k in LIB_PANIC and LIB_PANIC[k] is not None:
             return "lib:" + LIB_PANIC[k]
@@ -425,6 +429,37 @@ def run(ctx):
     ctx.add("R04.3", "C04/lc-public-key-is-49-bytes", not probs, "; ".join(sorted(set(probs))), site_of(f3) if f3 else None, {"contexts": [c[0] for c in cx]})
     ctx.sample({"sites": nsite, "entries": entries, "contexts": sum(len(v) for v in h.runs.values())})
 
+def root_of(f, operand, depth=0):
+    """Follows `x = &y`, `x = &(*y)`, `x = copy/move y`, unsize casts back to the local that owns the bytes,
+    or to the call that produced the reference. Returns (local or None, callee path or None)."""
+    pl = operand.get("copy") or operand.get("move") if isinstance(operand, dict) else None
+    if pl is None or depth > 12:
+        return None, None
+    l = pl["l"]
+    defs = []
+    for b in f["body"]["blocks"]:
+        for st in b["stmts"]:
+            if st["k"] == "assign" and st["place"]["l"] == l and not st["place"]["p"]:
+                defs.append(("stmt", st["rv"]))
+        t = b["term"]
+        if t["k"] == "call" and t.get("dest") and t["dest"]["l"] == l and not t["dest"]["p"]:
+            defs.append(("call", t))
+    if len(defs) != 1:
+        return (l, None) if not defs or l <= f["body"]["argc"] else (l, None)
+    kind, d = defs[0]
+    if kind == "call":
+        return None, (d.get("callee") or {}).get("path")
+    if d["k"] in ("ref", "rawptr"):
+        p2 = d["place"]
+        if not p2["p"]:
+            return p2["l"], None
+        if p2["p"] == ["*"]:
+            return root_of(f, {"copy": {"l": p2["l"], "p": []}}, depth + 1)
+        return p2["l"], None
+    if d["k"] == "use" or d["k"] == "cast":
+        return root_of(f, d["op"], depth + 1)
+    return l, None
+
 UNSAFE_STD = re.compile(r"(from_utf8_unchecked|get_unchecked|unwrap_unchecked|unreachable_unchecked|assume_init|from_raw_parts|from_raw|set_len|"
                         r"::ptr::(mut_ptr|const_ptr)::<impl \*(mut|const) T>::(add|sub|offset|read|write|copy_from|copy_to)|::ptr::(read|write|copy|copy_nonoverlapping)|transmute|"
                         r"new_unchecked|as_ref_unchecked|zeroed|uninit)$")
@@ -461,6 +496,40 @@ def run_r042(ctx, h):
                     where[cn] += n
                 else:
                     bad.append(f"{cn}::{qshort(k)} ({n} unsafe operation(s))")
+    # from_utf8_unchecked: the bytes must come from the base64 encoder (ASCII by C09 R09.4), i.e. a buffer only ever written by encode_3bytes / encode_last
+    cr = ctx.crates["paseto_core"]
+    n_utf8 = 0
+    for k, f in cr.fns.items():
+        if not f.get("body"):
+            continue
+        og = None
+        for bi, b in enumerate(f["body"]["blocks"]):
+            t = b["term"]
+            if t["k"] == "call" and t.get("callee") and t["callee"].get("path", "").endswith("from_utf8_unchecked"):
+                n_utf8 += 1
+                probs = []
+                root, via_call = root_of(f, t["args"][0])
+                if via_call is not None:
+                    if via_call != "base64::encode_last":
+                        probs.append(f"argument is the result of {via_call}, not of the base64 encoder")
+                elif root is None:
+                    probs.append("argument is not a local buffer nor encode_last's result")
+                else:
+                    writers = set()
+                    for b2 in f["body"]["blocks"]:
+                        t2 = b2["term"]
+                        if t2["k"] == "call" and t2.get("callee") and "path" in t2["callee"] and not t2["callee"]["path"].endswith("from_utf8_unchecked"):
+                            for a2 in t2["args"]:
+                                r2, _ = root_of(f, a2)
+                                if r2 == root:
+                                    writers.add(t2["callee"]["path"])
+                    for b2 in f["body"]["blocks"]:
+                        for st2 in b2["stmts"]:
+                            if st2["k"] == "assign" and st2["place"]["l"] == root and st2["place"]["p"]:
+                                writers.add("direct element write")
+                    if not writers or not writers <= {"base64::encode_3bytes", "base64::encode_last"}:
+                        probs.append(f"buffer is written by {sorted(writers - {'base64::encode_3bytes', 'base64::encode_last'}) or 'nothing'} (only the base64 encoder may fill it)")
+                ctx.add("R04.2", f"C04/utf8-unchecked/{qshort(k)}#{n_utf8}", not probs, "; ".join(probs), f"{b['sp']['f']}:{b['sp']['l']}")
     ctx.add("R04.2", "C04/unsafe-census/confined", not bad, "unsafe operations outside paseto-v3-aws-lc::lc and paseto-core::base64: " + "; ".join(bad) if bad else "", None, {"counts": dict(where)})
     for cn, floor in (("paseto_v3_aws_lc", 40), ("paseto_core", 2)):
         ctx.add("R04.2", f"C04/unsafe-census/{cn}", where[cn] >= floor, f"only {where[cn]} unsafe operations found where {floor} were counted (anchor moved?)" if where[cn] < floor else "", None, {"count": where[cn]})
